@@ -123,7 +123,7 @@ func c03() {
 	run := vlib.NewRun("C03", "translation_validation")
 	_, ts := mustTargets(run)
 	cat := c03Catalogue(ts)
-	nRandom := run.N(400, 10000)
+	nRandom := run.N(3000, 40000)
 	total := len(cat) + nRandom
 
 	var mu sync.Mutex
